@@ -558,6 +558,10 @@ class Own:
             return box(*args)
         if isinstance(f, ast.Attribute):
             root = ast.unparse(f.value).split(".")[0].split("(")[0]
+            if root in ("itertools", "chain", "functools", "operator", "copy") and root not in self.env:
+                # pure standard-library plumbing (chain.from_iterable, functools.reduce, operator.or_ ...): whatever
+                # went in may come out
+                return box(*(list(args) + list(kwargs.values())))
             if root in P.EXT_ROOTS or self.typ(f.value) == P.EXT:
                 return EMPTY
             if f.attr in ("append", "insert", "add", "extend"):
